@@ -18,6 +18,7 @@ from vf.common import Plan, held, violated, inconclusive, rng_for, pick
 from vf.monitors import STATE
 
 SPEC = {
+    "deciding_monitors": ["fn:trap_grad", "fn:min_trap_grad", "fn:spokes_grad"],
     "rule": ("cases = (designer, area log-uniform in [1e-6, 1], gmax in [0.1, 10], dgdt in "
              "[1e2, 1e5], dt in [1e-6, 1e-4]) incl. the triangle/trapezoid boundary, "
              "gmax/dgdt/dt integer and just above an integer, sub-sample areas; spokes: 1-6 "
